@@ -291,7 +291,7 @@ def bounded_checks(tier, seed):
         raise RuntimeError("bounded C04 sweep crashed: " + r.stderr[-1500:])
     d = json.loads(r.stdout.strip().splitlines()[-1])
     return [{"check": "scoping_fixture", "tool": "fixture package imported by CPython: the object bound to every annotated name vs. Griffe's canonical_path (followed through aliases)",
-             "bound": "9 modules, packages nested 3 deep, every import form (plain, aliased, dotted, from, relative level 1-3 from modules and __init__ modules), class and module scope",
+             "bound": "11 modules, packages nested 3 deep, every import form (plain, aliased, dotted, from, relative level 1-3 from modules and __init__ modules), class and module scope, a sub-module named like a builtin; annotations and base classes against CPython's own binding",
              "cases": d["cases"], "failing": len(d["bad"]), "wall_s": round(time.time() - t0, 1), "violations": d["bad"]}]
 
 
